@@ -558,7 +558,7 @@ Proof.
   unfold store.
   set (s1 := set_legit (f_res fu :: legit s) (set_manual false (set_value (Some (f_res fu)) s))).
   assert (I1 : INV c e s1).
-  { destruct I. constructor; unfold s1; sf; auto.
+  { destruct I. constructor; unfold s1; cbn [task version loading wakers value legit seen futs first_run manual cap st_dirty flag init_fut set_legit set_manual set_value]; auto.
     - intros v0 Hv. inversion Hv. left. reflexivity.
     - rewrite Ht. discriminate. }
   pose proof (inv_notify_subs c e s1 I1) as Ix.
@@ -572,8 +572,8 @@ Proof.
   - intros _ _ _. rewrite E9, E17, Hv1, Hc1, Hres. reflexivity.
 Qed.
 
-Lemma wk_after_store s r : WK (set_woken true (set_task TIdle (store r s))).
-Proof. constructor; sf; auto. Qed.
+Lemma wk_woken s : WK (set_woken true s).
+Proof. constructor; intros; try left; reflexivity. Qed.
 
 (** starting a fetch with a newly created future *)
 Definition started (fid : nat) (s : node) : node :=
@@ -591,25 +591,25 @@ Proof.
   destruct R as [A _ _ Hdr].
   assert (Hcr : curvals c r = curvals c s) by (apply agree_curvals; exact A).
   set (fu := mkFut (fetchf c (inputs c r)) false true).
-  set (x := started (length (futs r)) (set_futs (futs r ++ [fu]) (set_cap (inputs c r) r))).
-  assert (Ecx : curvals c x = curvals c r) by reflexivity.
-  assert (Hinx : inputs c x = inputs c r) by reflexivity.
-  constructor; unfold x, started; sf.
+  assert (Ecx : forall y, sigs y = sigs r -> refetch_n y = refetch_n r -> curvals c y = curvals c r).
+  { intros y E1 E2. unfold curvals, m3_of, m2_of, sg. rewrite E1, E2. reflexivity. }
+  unfold started.
+  constructor; sf.
   - intros f v Ht. inversion Ht. reflexivity.
   - discriminate.
   - rewrite (ag_value _ _ A), (ag_legit _ _ A). exact Hprov.
-  - fold x. rewrite Ecx, Hseen. reflexivity.
+  - erewrite Ecx by reflexivity. rewrite Hseen. reflexivity.
   - intros f v Ht. inversion Ht; subst. split; [reflexivity|]. exists fu.
     rewrite nth_error_app2, Nat.sub_diag by lia. auto.
   - discriminate.
   - discriminate.
   - intros _. unfold capof. destruct (shape c) eqn:Hs.
-    + fold x. rewrite Hinx. reflexivity.
-    + sf. rewrite Hseen. symmetry. apply inputs_iv. congruence.
+    + apply inputs_sigs. reflexivity.
+    + sf. rewrite Hseen. apply inputs_iv. congruence.
   - intros _ [H|[H|H]].
     + rewrite Hdr, Hd in H. discriminate.
     + discriminate.
-    + exfalso. apply H. fold x. rewrite Ecx. exact Hseen.
+    + exfalso. apply H. erewrite Ecx by reflexivity. exact Hseen.
   - rewrite (ag_init_fut _ _ A), Hinit. discriminate.
 Qed.
 
